@@ -164,7 +164,7 @@ def run(tier, seed):
     rep = core.Report("C05", tier, seed)
     rep.trusted_base = ["rustc nightly MIR", "mir2smt interpreter + byte-slice / container / closure call models", "z3"]
     rep.functions = ["source hashes: %s" % core.source_hashes(SRC)]
-    K = 3 if tier == "quick" else 5
+    K = 3 if tier == "quick" else 4
     rep.bounds = {"loop_unroll_K": K, "input_length": "0 <= len < 2^63 (symbolic)", "usize": "64 bit"}
     rep.assumptions = [
         "buffer content = uninterpreted function of (buffer, offset): every content, every length; reads of the same bytes agree",
